@@ -1222,7 +1222,8 @@ pub fn parse(lex_tokens: &Vec<LexerToken>) -> Result<ParseResult, CompilerError>
                                     left_node.right = None;
                                 }
 
-                                let left_is_expression_start = in_group == Definition::NestedExpression && group_index == left;
+                                let left_is_expression_start =
+                                    (in_group == Definition::NestedExpression || in_group == Definition::SideEffect) && group_index == left;
 
                                 left_node.secondary_definition == SecondaryDefinition::Subexpression || left_is_expression_start
                                 // || left_node.definition == Definition::NestedExpression
